@@ -65,6 +65,10 @@ func c08(args []string) error {
 
 	for i := 0; i < g.n; i++ {
 		cs := genC07(r)
+		satur := r.Intn(12) == 0
+		if satur { // dozens of exactly saturated pairs: the bookkeeping the workers share for them
+			cs = saturatedC08(r)
+		}
 		for k := range cs.seqs { // no character without a code here
 			b := []byte(cs.seqs[k])
 			for j := range b {
@@ -100,6 +104,9 @@ func c08(args []string) error {
 		kindSel := r.Intn(10)
 		if kindSel == 9 {
 			kindSel = 8
+		}
+		if satur {
+			kindSel = 6
 		}
 		switch kindSel {
 		case 0: // column permutation (the internal-gap mode depends on column order by definition)
@@ -190,7 +197,11 @@ func c08(args []string) error {
 			finish("row permutation", 3, 1, p, cb, 1)
 		case 6: // thread count: bit-identical
 			cb := clone()
-			finish("thread count", 0, 1, nil, cb, []int{2, 3, 8, 16, 32}[r.Intn(5)])
+			if satur {
+				finish("thread count", 0, 1, nil, cb, []int{8, 16, 32}[r.Intn(3)])
+			} else {
+				finish("thread count", 0, 1, nil, cb, []int{2, 3, 8, 16, 32}[r.Intn(5)])
+			}
 		case 8: // sequence ranges: the requested pairs carry the entries of the full matrix, the rest is 0
 			n := len(cs.seqs)
 			rg := [4]int{}
@@ -268,4 +279,46 @@ func c08(args []string) error {
 	}
 	writeStats(g.out, stats)
 	return nil
+}
+
+// saturatedC08: two groups of rows whose cross pairs are exactly saturated (JC69: 3 of every 4 sites differ; K2P: half
+// of the sites are transversions), so that the estimator is +Inf for dozens of pairs and every worker records some of
+// them for the final replacement by twice the largest finite distance; a few near copies give that finite maximum.
+func saturatedC08(r *rand.Rand) *c07case {
+	cs := &c07case{}
+	m := 1 + r.Intn(3)
+	na, nb, nc := 6+r.Intn(8), 6+r.Intn(8), 1+r.Intn(3)
+	cs.model = 2
+	unitA, unitB := "AAAA", "ACGT"
+	if r.Intn(3) == 0 {
+		cs.model = 3
+		unitB = "ACAC"
+	}
+	rep := func(u string) string {
+		o := ""
+		for k := 0; k < m; k++ {
+			o += u
+		}
+		return o
+	}
+	cs.seqs = nil
+	for k := 0; k < na; k++ {
+		cs.seqs = append(cs.seqs, rep(unitA))
+	}
+	for k := 0; k < nb; k++ {
+		cs.seqs = append(cs.seqs, rep(unitB))
+	}
+	for k := 0; k < nc; k++ { // near copies of the first group: one more difference, a finite distance
+		b := []byte(rep(unitA))
+		b[r.Intn(len(b))] = 'G'
+		cs.seqs = append(cs.seqs, string(b))
+	}
+	r.Shuffle(len(cs.seqs), func(i, j int) { cs.seqs[i], cs.seqs[j] = cs.seqs[j], cs.seqs[i] })
+	cs.names = distinctNames(r, len(cs.seqs))
+	cs.alpha = dyadic{1, 1}
+	cs.weights = make([]dyadic, 4*m)
+	for j := range cs.weights {
+		cs.weights[j] = dyadic{1, 1}
+	}
+	return cs
 }
